@@ -26,3 +26,23 @@ func VerifToyArith(h *verifh.H) {
 	}
 	h.Assert(x+y != 150 || x != 75, "find 75+75")
 }
+
+// VerifToyStore: one write, read back through the listing and the feed.
+func VerifToyStore(h *verifh.H) {
+	hub := VerifNewHub(h)
+	ds, err := hub.Dsm.CreateDataset("people", nil)
+	h.Assert(err == nil, "create")
+	e := vEntity("ns0:bob")
+	e.Properties["ns0:name"] = h.Str("name", 3)
+	e.References["ns0:knows"] = "ns0:alice"
+	err = ds.StoreEntities([]*Entity{e})
+	h.Assert(err == nil, "store")
+	res, err := ds.GetEntities("", -1)
+	h.Assert(err == nil, "list")
+	h.Assert(len(res.Entities) == 1, "one entity")
+	h.Assert(res.Entities[0].Properties["ns0:name"] == e.Properties["ns0:name"], "same name")
+	ch, err := ds.GetChanges(0, 10, false)
+	h.Assert(err == nil, "changes")
+	h.Assert(len(ch.Entities) == 1, "one change")
+	h.Observe("token", ch.NextToken)
+}
